@@ -80,7 +80,161 @@ class Gen5(Gen):
         return super().stmt(ind, depth, in_block, no_blank)
 
 
+MACRO_SHARE = 0.15      # share of cases of the macro-call-in-block class (gen_macro_case)
+
+
+def _macro_body(rnd, lab, ind, k):
+    """k lines of a macro body; at least one Wait so that a call spans several ticks."""
+    out = []
+    kinds = [rnd.choice(["mark", "mark", "mark", "wait", "wait", "uod", "thr"]) for _ in range(k)]
+    if "wait" not in kinds:
+        kinds[rnd.randrange(k - 1) if k > 1 else 0] = "wait"
+    for c in kinds:
+        if c == "mark":
+            out.append(" " * ind + f"Mark: {lab()}")
+        elif c == "wait":
+            out.append(" " * ind + f"Wait: {rnd.choice(['0.2', '0.3', '0.5', '0.8'])}s")
+        elif c == "uod":
+            out.append(" " * ind + rnd.choice(["Short", "Long", "Set1: 3"]))
+        else:
+            out.append(" " * ind + f"{rnd.choice(['0.2', '0.5', '0'])} Mark: {lab()}")
+    return out
+
+
+def _call_windows(text, ticks=90):
+    """Dry run with FT01 = 0: (start tick, completion tick or None) of every macro call."""
+    from opv.rigs import engine_rig as R
+    install()
+    rig = R.EngineRig(text)
+    try:
+        rig.start()
+        while rig.k < ticks and not rig.errors:
+            rig.hw.inputs["FT01"] = 0.0
+            rig.tick()
+        win: dict[int, list] = {}
+        for ev in R.TRACE:
+            if ev[3] == "CallMacroNode" and ev[5] is True:
+                if ev[1] == "started":
+                    win.setdefault(ev[6], [ev[0], None])
+                elif ev[1] == "completed" and ev[6] in win:
+                    win[ev[6]][1] = ev[0]
+        return [tuple(w) for w in win.values()]
+    finally:
+        rig.close()
+
+
+def gen_macro_case(rnd: random.Random):
+    """Macro class: Blocks - started on the main path and / or from a Watch/Alarm body - that call a multi-line
+    macro containing Waits, and `End block` / `End blocks` executed by another Watch/Alarm (root level, in an outer
+    block, or pending inside the block itself) or by the main path at a tick placed inside (or right around) the
+    time the call is in progress."""
+    L = ["Base: s"]
+    n = [0]
+
+    def lab():
+        n[0] += 1
+        return f"m{n[0]}"
+    nmac = 2 if rnd.random() < 0.35 else 1
+    for i in range(nmac):
+        L.append(f"Macro: M{i}")
+        L += _macro_body(rnd, lab, 4, rnd.randint(3, 7))
+    for _ in range(rnd.randint(0, 2)):
+        L.append(f"Mark: {lab()}")
+    ind = 0
+    outer = rnd.random() < 0.3
+    if outer:
+        L.append(f"Block: A{lab()}")
+        ind = 4
+        if rnd.random() < 0.5:
+            L.append(" " * ind + f"Mark: {lab()}")
+    true_cond = lambda: rnd.choice(["X = 0", "Run Counter >= 0", "FT01 < 7 L/h"])       # noqa: E731
+    end_cond = "FT01 > 3 L/h"
+
+    def ender(at, kind=None):
+        kind = kind or rnd.choice(["Watch", "Watch", "Watch", "Alarm"])
+        out = [" " * at + f"{kind}: {end_cond}"]
+        if rnd.random() < 0.25:
+            out.append(" " * (at + 4) + f"Mark: {lab()}")
+        out.append(" " * (at + 4) + rnd.choice(["End block", "End block", "End block", "End blocks"]))
+        if rnd.random() < 0.3:
+            out.append(" " * (at + 4) + f"Mark: {lab()}")
+        return out
+
+    def block_with_call(at, name, own_end, mi):
+        out = [" " * at + f"Block: {name}"]
+        if rnd.random() < 0.5:
+            out.append(" " * (at + 4) + f"Mark: {lab()}")
+        if rnd.random() < 0.2:
+            out += ender(at + 4)                        # a pending Watch/Alarm of the block itself ends it
+        out.append(" " * (at + 4) + f"Call macro: M{mi}")
+        if rnd.random() < 0.6:
+            out.append(" " * (at + 4) + f"Mark: {lab()}")
+        if rnd.random() < 0.2:
+            out.append(" " * (at + 4) + f"Call macro: M{mi}")
+        if own_end:
+            out.append(" " * (at + 4) + "End block")
+        return out
+
+    starter = rnd.choice(["interrupt", "interrupt", "interrupt", "main", "main", "both"])
+    if starter == "both" and nmac == 1 and rnd.random() < 0.8:
+        starter = rnd.choice(["interrupt", "main"])
+    # a Watch/Alarm that is to end a block of the main path has to be registered before the main path enters it
+    enders_before = starter != "interrupt" or rnd.random() < 0.5
+    if enders_before:
+        L += ender(ind)
+    main_ends = False
+    mi = rnd.randrange(nmac)
+    if starter in ("interrupt", "both"):
+        k = rnd.choice(["Watch", "Watch", "Alarm"])
+        L.append(" " * ind + f"{k}: {true_cond()}")
+        L += block_with_call(ind + 4, f"W{lab()}", rnd.random() < 0.7, mi)
+        mi = (mi + 1) % nmac            # "both": the two blocks call different macros when there are two
+        if rnd.random() < 0.6:
+            L.append(" " * (ind + 4) + f"Mark: {lab()}")
+        if k == "Alarm":
+            L.append(" " * (ind + 4) + "Wait: 3s")          # keeps the re-arm of the starter out of the way
+    if starter in ("main", "both"):
+        if rnd.random() < 0.4:
+            L.append(" " * ind + f"Wait: {rnd.choice(['0.2', '0.5', '1'])}s")
+        L += block_with_call(ind, f"B{lab()}", rnd.random() < 0.8, mi)
+        if rnd.random() < 0.6:
+            L.append(" " * ind + f"Mark: {lab()}")
+    elif rnd.random() < 0.5:
+        # the main path ends the block that was started from the Watch/Alarm body
+        main_ends = True
+        L.append(" " * ind + f"Wait: {rnd.choice(['0.3', '0.5', '0.8', '1', '1.5', '2'])}s")
+        L.append(" " * ind + rnd.choice(["End block", "End block", "End blocks"]))
+        L.append(" " * ind + f"Mark: {lab()}")
+    if not enders_before and (not main_ends or rnd.random() < 0.5):
+        L += ender(ind)
+    elif rnd.random() < 0.2:
+        L += ender(ind)
+    if outer:
+        L.append(" " * ind + f"Wait: {rnd.choice(['1', '2', '4'])}s")
+        if rnd.random() < 0.8:
+            L.append(" " * ind + "End block")
+        ind = 0
+    for _ in range(rnd.randint(0, 2)):
+        L.append(rnd.choice([f"Mark: {lab()}", "Wait: 0.5s", "Short"]))
+    text = "\n".join(L) + "\n"
+    wins = _call_windows(text)
+    if wins and rnd.random() < 0.85:
+        a, b = rnd.choice(wins)
+        b = b if b is not None else a + 20
+        t_end = max(3, rnd.randint(a - 1, b + 1))
+    else:
+        t_end = rnd.randint(4, 45)
+    w = rnd.choice([1, 2, 3, 200, 200, 200])
+    # the Watch/Alarm that ends the block sees its condition one tick after the reading changes and runs its
+    # body a tick later: aim the reading two ticks ahead
+    at = max(0, t_end - 2 - 2)
+    traj = [6.0 if at <= i < at + w else 0.0 for i in range(200)]
+    return {"text": text, "traj": traj, "ctl": [], "variant": "macro_call_in_block"}
+
+
 def gen_case(rnd: random.Random, max_depth: int = 4):
+    if rnd.random() < MACRO_SHARE:
+        return gen_macro_case(rnd)
     allow = ["mark", "mark", "uod", "wait", "block", "watch", "alarm", "thr", "blank"]
     if rnd.random() < 0.15:
         allow.append("macro")
@@ -230,6 +384,28 @@ def check_case(case, res: Result):
         mac_active: dict[str, int] = {}
         mac_max: dict[str, int] = {}
         blockend_pending = 0
+        blockend_macro = 0
+        calls_open: dict[tuple, dict] = {}     # (pyid of program, macro name) -> {pyid: CallMacroNode started, not completed}
+        macro_of: dict[int, object] = {}       # pyid of a line -> MacroNode whose body executes it inline, or None
+        macro_after_end = []                   # starts of macro-body lines judged after the walk
+
+        def top_of(x):
+            ps = x.parents
+            return id(ps[-1]) if ps else id(x)
+
+        def inline_macro(x):
+            """The MacroNode in whose body x is executed by the caller's own path (no Watch/Alarm in between: their
+            bodies run in handlers of their own, possibly after the call has completed)."""
+            if id(x) not in macro_of:
+                m = None
+                for a in x.parents:
+                    if isinstance(a, p.NodeWithCondition):
+                        break
+                    if isinstance(a, p.MacroNode):
+                        m = a
+                        break
+                macro_of[id(x)] = m
+            return macro_of[id(x)]
 
         def classify(mech, n):
             """Re-classification of violations that are instances of the interpreter defects already recorded for C02
@@ -280,6 +456,25 @@ def check_case(case, res: Result):
                         blockend_pending += 1
                         for d in inside:
                             S(id(d)).setdefault("pending_at_block_end", tick)
+                    s["end_tick"] = tick
+                    for (_t, mname), cs in calls_open.items():
+                        for c in cs.values():
+                            if n not in c.parents:
+                                continue
+                            res.count("block_ended_during_macro_call")
+                            res.count("block_ended_during_macro_call_by_" + ("interrupt" if ctx is not None else
+                                                                              "main_path"))
+                            if any(isinstance(a, p.NodeWithCondition) for a in n.parents):
+                                res.count("block_ended_during_macro_call_block_from_interrupt")
+                            m = c.root.macros.get(mname) if isinstance(c.parents[-1], p.ProgramNode) else None
+                            if m is not None:
+                                left = [d for d in m.children if not isinstance(d, p.WhitespaceNode)
+                                        and not S(id(d))["started"]]
+                                if left:
+                                    res.count("block_ended_during_macro_call_with_lines_left")
+                                    blockend_macro += 1
+                if field == "block_ended" and new is False:
+                    s["end_tick"] = None
                 if field == "lock_acquired" and new is False and not s["block_ended"]:
                     # the lock flag of a block that has not ended is cleared: reset_runtime_state of an enclosing
                     # Alarm / macro scope while an interrupt is still executing this block
@@ -384,7 +579,44 @@ def check_case(case, res: Result):
                     elif isinstance(a, p.BlockNode) and seen_cond is not None and S(id(a))["block_ended"]:
                         after_block_end.append((idx, n, seen_cond, a, tick))
                         break
+            if field == "started" and new is True and not isinstance(n, p.WhitespaceNode):
+                # ---- nothing that executes dynamically inside an ended block starts any more: a line of a macro
+                # body all of whose calls in progress lie (lexically) inside a block that ended in an earlier tick
+                m = inline_macro(n)
+                if m is not None:
+                    cs = calls_open.get((top_of(n), m.macro_name))
+                    if not cs:
+                        res.count("macro_line_start_without_call_in_progress")
+                    else:
+                        res.count("macro_line_start_checks")
+                        ends = []
+                        for c in cs.values():
+                            ts = [S(id(b)).get("end_tick") for b in c.parents if isinstance(b, p.BlockNode)
+                                  and S(id(b))["block_ended"]]
+                            ts = [t for t in ts if t is not None]
+                            ends.append((c, min(ts) if ts else None))
+                        if any(isinstance(b, p.BlockNode) for c in cs.values() for b in c.parents):
+                            res.count("macro_line_start_checks_call_inside_block")
+                        if all(t is not None for _, t in ends):
+                            if all(t < tick for _, t in ends):
+                                macro_after_end.append((idx, n, m, ends, tick))
+                            else:
+                                res.count("macro_line_started_in_block_end_tick_not_judged")
+                        elif any(t is not None for _, t in ends):
+                            res.count("macro_line_start_other_call_outside_ended_block_not_judged")
             if isinstance(n, p.CallMacroNode):
+                k_open = (top_of(n), n.macro_name)
+                if field in ("started", "restarted") and new is True:
+                    calls_open.setdefault(k_open, {})[pid] = n
+                    if field == "started":
+                        res.count("macro_calls")
+                        if any(isinstance(b, p.BlockNode) for b in n.parents):
+                            res.count("macro_calls_inside_block")
+                            if any(isinstance(a, p.NodeWithCondition) for b in n.parents if isinstance(b, p.BlockNode)
+                                   for a in b.parents):
+                                res.count("macro_calls_inside_block_from_interrupt")
+                elif (field == "completed" and new is True) or (field == "started" and new is False):
+                    calls_open.get(k_open, {}).pop(pid, None)
                 if field == "started" and new is True:
                     mac_active[n.macro_name] = mac_active.get(n.macro_name, 0) + 1
                     mac_max[n.macro_name] = max(mac_max.get(n.macro_name, 0), mac_active[n.macro_name])
@@ -400,6 +632,23 @@ def check_case(case, res: Result):
                              f"executed after its block {_nm(b)} had ended"))
             else:
                 res.count("start_flag_only_after_block_end")
+
+        for idx, n, m, ends, tick in macro_after_end:
+            if not any(e[6] == id(n) and e[1] in EXEC and e[0] <= err_tick for e in trace[idx:]):
+                res.count("start_flag_only_after_block_end")
+                continue
+            mech = "C05.macro_body_continues_after_block_end"
+            for c, _t in ends:
+                for x in c.parents:
+                    if (isinstance(x, p.NodeWithCondition) and S(id(x))["stale"] and any(
+                            isinstance(a, (p.AlarmNode, p.MacroNode)) for a in x.parents)) or (
+                            isinstance(x, p.BlockNode) and S(id(x))["reset_while_active"] is not None):
+                        mech = "C05.interrupt_survives_reset_of_enclosing_scope"
+            viol.append((mech, f"tick {tick}: {n.id} {type(n).__name__} in the body of macro {m.macro_name} started and "
+                         f"executed although every call in progress lies inside a block that has ended: "
+                         + ", ".join(f"call {c.id} in block "
+                                     f"{[_nm(b) for b in c.parents if isinstance(b, p.BlockNode) and S(id(b))['block_ended']]}"
+                                     f" ended in tick {t}" for c, t in ends)))
 
         # ---------------- tick-end invariant (first occurrence of each kind per case)
         reported = set()
@@ -473,7 +722,7 @@ def check_case(case, res: Result):
                     mech = classify("C05.interrupt_still_registered_after_block_end", w)
                 viol.append((mech, f"tick {k}: {type(w).__name__} {w.id} inside ended block {_nm(b)} is (still or "
                              f"again) registered"))
-        nontrivial = acquired >= 2 or by_interrupt > 0 or blockend_pending > 0
+        nontrivial = acquired >= 2 or by_interrupt > 0 or blockend_pending > 0 or blockend_macro > 0
         res.case([shape_hash(text), case.get("variant")] if nontrivial else None,
                  sample={"method": text, "variant": case.get("variant"), "ctl": case.get("ctl"), "ticks": rig.k,
                          "locks": acquired, "end_blocks_by_interrupt": by_interrupt, "marks": rig.marks()[:10]})
